@@ -189,6 +189,11 @@ func c12Run(c *vfCtx, cs c12Case) {
 	opts := c12Opts(cs.OptSet, dir)
 	cfg := WithConfig(opts...)
 	sib := WithConfig(opts...)
+	// an independent Config built BEFORE the sequence runs, used afterwards for the differential
+	dir2 := filepath.Join(c.scratch, "w2")
+	os.RemoveAll(dir2)
+	os.MkdirAll(dir2, 0o755)
+	cfg2 := WithConfig(c12Opts(cs.OptSet, dir2)...)
 	d0, s0, def0 := vfDumpCfg(cfg), vfDumpCfg(sib), vfDumpCfg(WithConfig())
 	t := &vfT{name: "TestA"}
 	var lastCreated []string
@@ -200,13 +205,10 @@ func c12Run(c *vfCtx, cs c12Case) {
 		c.count("transitions", 1)
 		lastOutcome = t.outcome(mk)
 		lastCreated = c12Created(before, vfSnapDir(dir))
-		if d := vfDumpCfg(cfg); d != d0 {
-			c.violation("", fmt.Sprintf("call %d (%s) changed the Config it was called on: %s -> %s", i+1, api, d0, d), cs)
-			return
-		}
-		if d := vfDumpCfg(sib); d != s0 {
-			c.violation("", fmt.Sprintf("call %d (%s) changed a sibling Config built from the same options: %s -> %s", i+1, api, s0, d), cs)
-			return
+		// representation changes of the Config itself are only counted: a benign
+		// internal cache keeps the property true; the verdict is behavioural (below)
+		if vfDumpCfg(cfg) != d0 || vfDumpCfg(sib) != s0 {
+			c.count("config_representation_changes_observed", 1)
 		}
 		if d := vfDumpCfg(WithConfig()); d != def0 {
 			c.violation("", fmt.Sprintf("call %d (%s) changed the package defaults: %s -> %s", i+1, api, def0, d), cs)
@@ -215,11 +217,9 @@ func c12Run(c *vfCtx, cs c12Case) {
 	}
 	t.end()
 	c.addSet("states", vfHash(cs.OptSet, fmt.Sprint(lastCreated), fmt.Sprint(vfHashDir(vfSnapDir(dir)))))
-	// differential: the last call alone on a fresh Config in a fresh world
+	// differential: the last call alone, through the independent Config, into an empty directory
 	last := cs.Seq[len(cs.Seq)-1]
-	dir2 := c.newWorld()
 	vfResetState(false, "", true)
-	cfg2 := WithConfig(c12Opts(cs.OptSet, dir2)...)
 	t2 := &vfT{name: "TestA"}
 	before := vfSnapDir(dir2)
 	mk := t2.mark()
